@@ -8,7 +8,7 @@ assignments, conditional re-assignment of one local, `if` / `elif` / `else`, `re
 calls of `urljoin` (a parameter `resolve` of the generated function) and of other translated functions;
 `x[i]` with an int index (hoisted into a monadic `PyOps.index`, IndexError as in Python; not under `and` / `or` / conditional
 expressions, whose laziness the hoisting would lose); `for i in range(e):` whose body only tests and returns / raises
-(`PyOps.forRange`, early exit on `return`); `x[::-1]`; `P.search(x)` for a module constant `P = re.compile("[...]")` that is a
+(`PyOps.forRange`, early exit on `return`), likewise `for x in xs:` over a parameter that is a list of strings (`PyOps.forEach`); `x[::-1]`; `P.search(x)` for a module constant `P = re.compile("[...]")` that is a
 plain character class, of whose match object only `is None` and `.start()` are used; functions returning `None` or a string.
 Every generated function returns `Except PyExc T`."""
 import ast
@@ -249,18 +249,24 @@ class TrS:
             if in_loop:
                 raise Untranslatable("nested loop")
             it = s.iter
-            if not (isinstance(s.target, ast.Name) and isinstance(it, ast.Call) and isinstance(it.func, ast.Name) and it.func.id == 'range'
-                    and len(it.args) == 1 and not s.orelse):
-                raise Untranslatable("loop other than `for i in range(e)`")
+            if not isinstance(s.target, ast.Name) or s.orelse:
+                raise Untranslatable("loop with a pattern target or an else clause")
             if self.assigned(s.body) - {None} or not self.only_tests_and_exits(s.body):
                 raise Untranslatable("loop body assigns or does more than test / return / raise")
-            n_e, n_t = self.expr(it.args[0])
-            if n_t != 'int':
-                raise Untranslatable("range of a non-int")
+            if isinstance(it, ast.Call) and isinstance(it.func, ast.Name) and it.func.id == 'range' and len(it.args) == 1:
+                n_e, n_t = self.expr(it.args[0])
+                if n_t != 'int':
+                    raise Untranslatable("range of a non-int")
+                loop, var_t = "PyOps.forRange %s" % n_e, 'int'
+            else:
+                n_e, n_t = self.expr(it)
+                if n_t != 'strlist':
+                    raise Untranslatable("loop other than `for i in range(e)` / `for x in <list of strings>`")
+                loop, var_t = "PyOps.forEach %s" % n_e, 'str'
             head = self.flush("")
             var = s.target.id
             old = self.env.get(var)
-            self.env[var] = 'int'
+            self.env[var] = var_t
             try:
                 body = self.block(list(s.body), ret, in_loop=True)
             finally:
@@ -270,8 +276,8 @@ class TrS:
                     self.env[var] = old
             self.fresh += 1
             r = "r_%d" % self.fresh
-            return "%slet %s ← PyOps.forRange %s (fun %s => do\n  %s)\n  match %s with\n  | some v => pure v\n  | none => (do\n  %s)" % (
-                head, r, n_e, var, body, r, self.block(tail, ret))
+            return "%slet %s ← %s (fun %s => do\n  %s)\n  match %s with\n  | some v => pure v\n  | none => (do\n  %s)" % (
+                head, r, loop, var, body, r, self.block(tail, ret))
         if isinstance(s, ast.Expr) and isinstance(s.value, ast.Constant):
             return self.block(tail, ret)
         if isinstance(s, ast.Return):
@@ -333,7 +339,8 @@ class TrS:
         raise Untranslatable("stmt " + ast.dump(s)[:120])
 
 
-LEAN_TY = {'str': 'List Char', 'int': 'Int', 'bool': 'Bool', 'optstr': 'Option (List Char)', 'optint': 'Option Int', 'char': 'Char', 'matchpos': 'Int'}
+LEAN_TY = {'str': 'List Char', 'int': 'Int', 'bool': 'Bool', 'optstr': 'Option (List Char)', 'optint': 'Option Int', 'char': 'Char', 'matchpos': 'Int',
+           'strlist': 'List (List Char)'}
 
 
 def translate(out, report, assumptions, lean_name, fn, param_types, ret, consts, skip=('self',)):
